@@ -37,6 +37,9 @@ Node20Verdict(e) ==
   IF \E f \in 0..1, b \in 0..255 : Class(e.vc[f + 1][b + 1]) # Class(e.vs[f + 1][b + 1]) \/ Class(e.vc[f + 1][b + 1]) # Class(e.vb[f + 1][b + 1])
   THEN "ModesCutAtSamePlaces"
   ELSE IF \E f \in 0..1, b \in 0..255 : Class(e.vb[f + 1][b + 1]) = 2 /\ e.vb[f + 1][b + 1] # 4 THEN "BytesNamingReturnsTheBytes"
+  \* a keypress that curses naming reports under a name (a table name, or any other string that is not the decoded text:
+  \* code 3 / >= 10) is not reported as bare text (code 2) by curtsies naming - also for sequences outside both tables
+  ELSE IF \E f \in 0..1, b \in 0..255 : (e.vs[f + 1][b + 1] = 3 \/ e.vs[f + 1][b + 1] >= 10) /\ e.vc[f + 1][b + 1] = 2 THEN "CursesNamedSequenceHasCurtsiesName"
   ELSE "ok"
 NodeExact(e) == \A m \in 1..3, f \in 0..1, b \in 0..255 :
                    VecOf(e, Modes[m])[f + 1][b + 1] = ImplDecide(Append(e.buf, b), e.enc, Modes[m], f = 1)
